@@ -1,9 +1,50 @@
 import DspVerif.Driver.Proto
-/-! driver handlers for C11 (stub: no correspondence cases handled yet) -/
+import DspVerif.Model.Window
+/-! driver handlers for C11: window vectors, `fir1` impulse responses, `firtype` -/
 namespace Dsp.Driver
-open Dsp.Proto
+open Dsp.Proto Dsp.Window
+
+def winByName (fam : String) (n : Nat) (sym : Bool) (p : Float) : Option (List Float) :=
+  match fam with
+  | "hann" => some (hann n sym)
+  | "hamming" => some (hamming n sym)
+  | "blackman" => some (blackman n sym)
+  | "blackmanharris" => some (blackmanharris n sym)
+  | "gauss" => some (gauss n p sym)
+  | "cosine" => some (cosine n sym)
+  | "tukey" => some (tukey n p)
+  | "kaiser" => some (kaiser n p)
+  | _ => none
+
+/-- the digest the harness prints for long windows -/
+def winDigest (w : Array Float) : String :=
+  let n := w.size
+  let m := n / 2
+  let nf := Float.ofNat n
+  let (s, wm, _) := w.foldl (fun (acc : Float × Float × Nat) x =>
+    (acc.1 + x, acc.2.1 + x * (Float.ofNat (acc.2.2 + 1) / nf), acc.2.2 + 1)) (0.0, 0.0, 0)
+  let g (i : Nat) : Float := w[i]!
+  toString n ++ " " ++ fmtFloats [g 0, g 1, g (m - 1), g m, g (n - 2), g (n - 1), g (n / 3), g ((2 * n) / 3 + 1), s / nf, wm / nf]
 
 def h11 : List String → Option String
+  | ["win", fam, n, sym, p] => do
+    let w ← winByName fam (← n.toNat?) (sym == "1") (← parseF p)
+    some (fmtFloatArr w.toArray)
+  | ["wind", fam, n, sym, p] => do
+    let w ← winByName fam (← n.toNat?) (sym == "1") (← parseF p)
+    some (winDigest w.toArray)
+  | "fir" :: ftype :: n :: w1 :: w2 :: haswin :: rest => do
+    let ftype ← ftype.toNat?; let n ← n.toNat?; let w1 ← parseF w1; let w2 ← parseF w2
+    let r ← if haswin == "1" then do
+        let (win, _) ← takeFloats rest
+        pure (fir1 ftype n w1 w2 win.toList)
+      else pure (fir1Default ftype n w1 w2)
+    match r with
+    | .ok h => some (fmtFloatArr h.toArray)
+    | .error _ => some "ERR"
+  | "firtype" :: rest => do
+    let (h, _) ← takeFloats rest
+    some (toString (firtype h.toList))
   | _ => none
 
 end Dsp.Driver
